@@ -48,7 +48,7 @@ type Work struct {
 	Cut     int    `json:"cut,omitempty"`      // >0: the source text handed to the interpreter ends after this many bytes (a program that arrives truncated)
 }
 
-const nSites = 124
+const nSites = 126
 const nWraps = 7
 
 func siteSrc(k int, id string) string {
@@ -310,6 +310,11 @@ func siteSrc(k int, id string) string {
 		return "module A" + id + " { peer = nil; x = 1 }\nmodule B" + id + " { peer = nil; y = 2 }\nmc" + id + " = make(chan interface, 2)\nmc" + id + " <- B" + id + "\nA" + id + ".peer = <-mc" + id + "\nmc" + id + " <- A" + id + "\nB" + id + ".peer = <-mc" + id + "\nc" + id + " = A" + id + "\nh(" + id + ")"
 	case 122:
 		return "module S" + id + " { self = nil; v = 1 }\nmc" + id + " = make(chan interface, 1)\nmc" + id + " <- S" + id + "\nS" + id + ".self = <-mc" + id + "\ngo func() { d" + id + " = S" + id + "; h(" + id + ") }()\ne" + id + " = hid(S" + id + ")\nf" + id + " = e" + id + ""
+	// a container that shrinks or grows while a for-in walks it
+	case 123:
+		return "qs" + id + " = [][]int64{[10, 20, 30], [40]}\nsm" + id + " = 0\nfor job" + id + " in qs" + id + "[0] {\nsm" + id + " += job" + id + "\nqs" + id + "[0] = []int64{}\nh(" + id + ")\n}"
+	case 124:
+		return "ls" + id + " = [1, 2, 3, 4]\nfor v" + id + " in ls" + id + " {\nls" + id + " = ls" + id + "[0:1]\n}\nts" + id + " = make([]int64, 3)\nfor w" + id + " in ts" + id + " {\nts" + id + " = ts" + id + "[:0]\nts" + id + " += h(" + id + ")\n}"
 	default:
 		return "x" + id + " = hid(1) & hid(\"z\")\ny" + id + " = hid(1.5) | hid(nil)\nz" + id + " = hid({}) ^ 1\nw" + id + " = hid([1, 2]) + hid({\"a\": 1})\nv" + id + " = hid(nil) < hid([1])\nu" + id + " = hid(func() { }) == hid(func() { })"
 	}
@@ -359,6 +364,10 @@ var faultKinds = []string{"panic-string", "panic-error", "panic-value", "runtime
 type nilErr struct{ msg string }
 
 func (e *nilErr) Error() string { return e.msg }
+
+// Unwrap and Is dereference the receiver too: whoever inspects the error chain of a typed nil trips over it.
+func (e *nilErr) Unwrap() error        { return errors.New(e.msg) }
+func (e *nilErr) Is(target error) bool { return e.msg == target.Error() }
 
 // errList is an error of slice kind, like go/scanner.ErrorList: not hashable, not comparable.
 type errList []string
